@@ -165,10 +165,19 @@ impl<'a> Interpreter<'a> {
     }
 
     /// True once the evaluation (macro bodies included) has read a name that is not
-    /// bound. Such a read need not surface in the result: `in`, `==` on maps, `has`
-    /// or `coalesce` absorb the failed value.
+    /// bound, or the clock through `timestamp()`. An unbound read need not surface in
+    /// the result: `in`, `==` on maps, `has` or `coalesce` absorb the failed value.
     pub fn run_dependent(&self) -> bool {
         self.run_dependent.load(Ordering::Relaxed)
+    }
+
+    /// Builds a value of the named type. `timestamp` without arguments is the current
+    /// time, however the type was reached (by name, as a type value, as an element).
+    fn construct(&self, type_name: &str, args: Vec<CelValue>) -> CelValue {
+        if type_name == "timestamp" && args.is_empty() {
+            self.run_dependent.store(true, Ordering::Relaxed);
+        }
+        construct_type(type_name, args)
     }
 
     pub fn cel_copy(&self) -> Option<CelContext> {
@@ -513,7 +522,7 @@ impl<'a> Interpreter<'a> {
                                         self.get_type_by_name(&func_name)
                                     {
                                         let arg_values = self.resolve_args(args)?;
-                                        stack.push_val(construct_type(type_name, arg_values));
+                                        stack.push_val(self.construct(type_name, arg_values));
                                     } else {
                                         stack.push_val(CelValue::from_err(CelError::runtime(
                                             &format!("{} is not callable", func_name),
@@ -522,7 +531,7 @@ impl<'a> Interpreter<'a> {
                                 }
                                 CelValue::Type(type_name) => {
                                     let arg_values = self.resolve_args(args)?;
-                                    stack.push_val(construct_type(&type_name, arg_values));
+                                    stack.push_val(self.construct(&type_name, arg_values));
                                 }
                                 other => stack.push_val(
                                     CelValue::from_err(CelError::runtime(&format!(
